@@ -52,8 +52,9 @@ def run(ctx, rep):
         rep.instance(R5, ok=True)
     rep.consulted |= sub.consulted
     for f in sub.findings:
-        if f.rule == 'C08.R5':
-            continue
+        if f.rule == 'C08.R5' and not f.key.endswith('/locality'):
+            continue        # (whether identity is an equivalence is C08's own clause; that it acts at its own world only is needed here:
+                            #  the branch keeps identity per world, and a model that moves extensions across worlds contradicts the branch it reads)
         rep.rules[R5]['failed'] += 1
         rep.discharged -= 1
         rep.finding(R5, f.key.replace('C08.', 'C02.R5/C08.', 1), f.where, f.construct, f.msg)
@@ -67,19 +68,7 @@ def run(ctx, rep):
     R8 = rep.rule('C02.R8', 'no starvation behind the fairness gate: rules that postpone a node while another was applied fewer times (NodeCount.isleast) are folded '
                             'over every small state of applied (node, world) pairs -- whenever some node still has an accessible world it was not applied to, '
                             'the rule offers a target; so an open finished branch is saturated for the box-type modal rules')
-    res, cons, nsites = helpersfold.fold_fair_gate(m, ctx.lgs)
-    rep.consult(*cons)
-    seen = set()
-    for ok, case, detail, where in res:
-        rep.instance(R8, ok=ok, nontrivial=case)
-        if not ok:
-            k = case.split(':')[0]
-            if k in seen:
-                continue
-            seen.add(k)
-            rep.finding(R8, f'C02.R8/{k}', where.split(' ')[0], k, f'{case}: {detail}')
-    rep.floor('C02.R8', 'gated rule producers', nsites, 1)
-    rep.floor('C02.R8', 'states', len(res), 30)
+    common.fair_gate(ctx, rep, R8, 'C02.R8')
 
 
 def r3(ctx, rep):
